@@ -1377,6 +1377,20 @@ impl Error {
     /// - The live events adapter when the underlying parser fails.
     #[cold]
     #[inline(never)]
+    /// True for the parser's complaint that content follows a document which was not closed by
+    /// an end marker (`{a: 1}` followed by `{b: 2}` on the next line): unlike garbage after an
+    /// explicit `...`, this is left-over content of the input and must be reported.
+    pub(crate) fn is_content_after_unterminated_document(&self) -> bool {
+        matches!(
+            self.without_snippet(),
+            Error::ExternalMessage {
+                source: ExternalMessageSource::SaphyrParser,
+                msg,
+                ..
+            } if msg.contains("did not find expected <document start>")
+        )
+    }
+
     pub(crate) fn from_scan_error(err: ScanError) -> Self {
         use crate::location::SpanIndex;
         let mark = err.marker();
